@@ -283,6 +283,49 @@ def check_mode_case(case, st):
         st.violation('policy-mode:block-count', dict(d, got=len(MT.split_text(res.stdout)), stdout_tail=res.stdout[-200:]))
 
 
+# ---- the same structure under every presentation option (and pairs of them): with -j / -jj the whole of stdout is one JSON array
+# with one element per target whatever else was asked for (-v, -b, -l ...); in text mode there is one block per target
+# (-d, the debugging switch, writes its trace to stdout in every mode, JSON included, on the unchanged tree: a developer's option outside the
+# statement's "text and JSON"; observed, not enumerated - DESIGN.md 7.3, round 23)
+OPTION_SETS = [('-v',), ('-b',), ('-l', 'warn'), ('-l', 'fail'), ('-v', '-b'), ('-v', '-l', 'fail'), ('-b', '-l', 'warn'), ('-v', '-l', 'warn', '-b')]
+
+
+def option_cases():
+    out = []
+    for archs in (('CLEAN', 'REFUSED'), ('REFUSED', 'TERR'), ('CLEAN', 'BADBLOCK', 'RSA2048'), ('UNRESOLVABLE', 'CLEAN'), ('CLOSEAFTERBANNER',), ('TERR',)):
+        for threads in (1, 2):
+            for fmt in ('text', 'json', 'jj'):
+                for extra in OPTION_SETS:
+                    if fmt == 'text' and '-d' in extra:
+                        continue        # debugging output in text mode is free-form
+                    out.append(('options', archs, threads, fmt, extra))
+    return out
+
+
+def check_option_case(case, st):
+    _k, archs, threads, fmt, extra = case
+    res, s = MT.run_multi(list(archs), threads, 'json' if fmt != 'text' else 'text', (), ('connect',), None, extra=tuple(extra) + (('-j',) if fmt == 'jj' else ()))
+    st.execution(res.world, outcome=('options', fmt, res.status), root=case, nontrivial=case)
+    d = {'targets': list(archs), 'threads': threads, 'fmt': fmt, 'options': list(extra), 'status': res.status}
+    n = len(archs)
+    if res.hang or res.exc or res.status not in (0, 1, 2, 3):
+        st.violation('options:%s' % ('hang-or-escaped-exception' if (res.hang or res.exc) else 'exit-status-%s' % res.status), dict(d, hang=res.hang, exc=res.exc, tail=(res.stdout + res.stderr)[-300:]))
+        return
+    ref, _s = MT.run_multi(list(archs), threads, 'json' if fmt != 'text' else 'text', (), ('connect',), None)
+    if res.status != ref.status:
+        st.violation('options:exit-status-changes-with-presentation-options', dict(d, without_them=ref.status))
+    if fmt != 'text':
+        try:
+            doc = json.loads(res.stdout)
+        except ValueError:
+            st.violation('options:json-not-one-document:%s' % ' '.join(extra), dict(d, stdout_head=res.stdout[:200]))
+            return
+        if not isinstance(doc, list) or len(doc) != n:
+            st.violation('options:json-array-length', dict(d, got=len(doc) if isinstance(doc, list) else None))
+    elif '-l' not in extra and len(MT.split_text(res.stdout)) != n:
+        st.violation('options:block-count', dict(d, got=len(MT.split_text(res.stdout)), stdout_tail=res.stdout[-200:]))
+
+
 # ---- long runs: many slow targets on few workers (each silent target costs one timeout; the run lasts far longer than any single audit)
 def slow_cases():
     out = []
@@ -570,6 +613,8 @@ def work(chunk, st):
     for case in chunk:
         if case[0] == 'mode':
             check_mode_case(case, st)
+        elif case[0] == 'options':
+            check_option_case(case, st)
         elif case[0] == 'slow':
             check_slow_case(case, st)
         elif case[0] == 'partial':
@@ -635,6 +680,7 @@ def cases(tier):
     out += partial_cases()
     out += bigfile_cases()
     out += mode_cases()
+    out += option_cases()
     return out
 
 
